@@ -313,6 +313,65 @@ func c06Dense(w *World, r *Report, id, slug string) {
 		ob.Undecided("anchor", "handler or entry conversion not found")
 		return
 	}
+	// the loop may sit in the handler or in a helper the handler hands the returned entries to
+	// (single call site): the helper's parameters then read as the handler's arguments
+	host := fn
+	hctx := &ExprCtx{}
+	hasEmit := func(f *ssa.Function) bool {
+		found := false
+		eachInstr(f, func(in ssa.Instruction) {
+			if c := plainCall(in); c != nil && CalleeName(c) == "builtin.append" {
+				if s, ok := c.Args[0].Type().Underlying().(*types.Slice); ok && typeIs(s.Elem(), pbPkg, "ReplicateCommand") {
+					found = true
+				}
+			}
+			if st, ok := in.(*ssa.Store); ok {
+				if ia, ok := st.Addr.(*ssa.IndexAddr); ok {
+					if sl, ok := ia.X.Type().Underlying().(*types.Slice); ok && typeIs(sl.Elem(), pbPkg, "ReplicateCommand") {
+						found = true
+					}
+				}
+			}
+		})
+		return found
+	}
+	if !hasEmit(fn) {
+		eachInstr(fn, func(in ssa.Instruction) {
+			c := plainCall(in)
+			if c == nil {
+				return
+			}
+			cal := StaticCallee(c)
+			if cal == nil || cal.Blocks == nil || !inModule(cal) || !hasEmit(cal) || len(w.CallersOf(cal)) != 1 || len(c.Args) != len(cal.Params) {
+				return
+			}
+			host = cal
+			hctx = &ExprCtx{Alias: map[ssa.Value]string{}}
+			for i, p := range cal.Params {
+				hctx.Alias[p] = Expr(c.Args[i])
+			}
+			// what the helper returns is what the handler ships
+			okShip := false
+			if cv, isV := in.(ssa.Value); isV && cv.Referrers() != nil {
+				for _, ref := range *cv.Referrers() {
+					if ex, isE := ref.(*ssa.Extract); isE && ex.Index == 0 && ex.Referrers() != nil {
+						for _, r2 := range *ex.Referrers() {
+							if st, isS := r2.(*ssa.Store); isS {
+								if fa, isF := st.Addr.(*ssa.FieldAddr); isF && fieldAddrName(fa) == "Commands" && typeIs(fa.X.Type(), pbPkg, "ReplicateCommandsResponse") {
+									okShip = true
+								}
+							}
+						}
+					}
+				}
+			}
+			ob.Site(in.Pos(), "command loop in helper "+FnName(cal))
+			if !okShip {
+				ob.Violate("helper-result-not-shipped", in.Pos(), "the commands built by "+FnName(cal)+" are not what the handler puts into its response")
+			}
+		})
+	}
+	hx := func(v ssa.Value) string { return hctx.Expr(v) }
 	// the command of an entry is emitted by append(commands, cmd) or by commands[i] = cmd (with
 	// commands made len(entries) long and i the index of the entry)
 	var appends []ssa.Instruction
@@ -325,7 +384,7 @@ func c06Dense(w *World, r *Report, id, slug string) {
 		}
 		return nil
 	}
-	eachInstr(fn, func(in ssa.Instruction) {
+	eachInstr(host, func(in ssa.Instruction) {
 		if c := plainCall(in); c != nil && CalleeName(c) == "builtin.append" {
 			if s, ok := c.Args[0].Type().Underlying().(*types.Slice); ok && typeIs(s.Elem(), pbPkg, "ReplicateCommand") {
 				appends = append(appends, in)
@@ -335,14 +394,14 @@ func c06Dense(w *World, r *Report, id, slug string) {
 			if ia, ok := st.Addr.(*ssa.IndexAddr); ok {
 				if sl, ok := ia.X.Type().Underlying().(*types.Slice); ok && typeIs(sl.Elem(), pbPkg, "ReplicateCommand") {
 					appends = append(appends, in)
-					idx := Expr(ia.Index)
+					idx := hx(ia.Index)
 					ob.Site(in.Pos(), "commands["+idx+"] assigned")
 					// the slot is the entry's own position and the slice has one slot per entry
 					okIdx := false
 					for _, v := range emitted(in) {
 						if al, ok := v.(*ssa.Alloc); ok {
-							for _, lst := range storesToField(fn, al, "LeaderIndex") {
-								if strings.Contains(Expr(lst.Val), "["+idx+"].Index") {
+							for _, lst := range storesToField(host, al, "LeaderIndex") {
+								if strings.Contains(hx(lst.Val), "["+idx+"].Index") {
 									okIdx = true
 								}
 							}
@@ -351,7 +410,7 @@ func c06Dense(w *World, r *Report, id, slug string) {
 					if !okIdx {
 						ob.Violate("slot-index", in.Pos(), "the command is stored at position `"+idx+"`, which is not the position of its entry")
 					}
-					if mk, ok := ia.X.(*ssa.MakeSlice); !ok || !strings.Contains(Expr(mk.Len), "len(") || !strings.Contains(Expr(mk.Len), "QueryRaftLog(") {
+					if mk, ok := ia.X.(*ssa.MakeSlice); !ok || !strings.Contains(hx(mk.Len), "len(") || !strings.Contains(hx(mk.Len), "QueryRaftLog(") {
 						ob.Violate("slot-count", in.Pos(), "the command slice assigned by position is not made with one slot per returned entry")
 					}
 				}
@@ -359,7 +418,7 @@ func c06Dense(w *World, r *Report, id, slug string) {
 		}
 	})
 	if len(appends) != 1 {
-		ob.Violate("append-shape", fn.Pos(), "expected exactly one append of a ReplicateCommand in the handler")
+		ob.Violate("append-shape", host.Pos(), "expected exactly one append of a ReplicateCommand in the handler")
 	} else {
 		ap := appends[0]
 		ob.Site(ap.Pos(), "ReplicateCommand appended")
@@ -379,7 +438,7 @@ func c06Dense(w *World, r *Report, id, slug string) {
 			// the loop ranges over the query result in order (rangeindex over the QueryRaftLog result)
 			okRange := false
 			for _, in := range h.Instrs {
-				if bo, ok := in.(*ssa.BinOp); ok && strings.Contains(Expr(bo), "len(") && strings.Contains(Expr(bo), "QueryRaftLog(") {
+				if bo, ok := in.(*ssa.BinOp); ok && strings.Contains(hx(bo), "len(") && strings.Contains(hx(bo), "QueryRaftLog(") {
 					okRange = true
 				}
 			}
@@ -393,16 +452,16 @@ func c06Dense(w *World, r *Report, id, slug string) {
 			if !ok {
 				continue
 			}
-			for _, st := range storesToField(fn, al, "LeaderIndex") {
-				e := Expr(st.Val)
+			for _, st := range storesToField(host, al, "LeaderIndex") {
+				e := hx(st.Val)
 				ob.Site(st.Pos(), "ReplicateCommand.LeaderIndex = "+e)
 				if !strings.HasSuffix(e, ".Index") || !strings.Contains(e, "QueryRaftLog(") {
 					ob.Violate("label-source", st.Pos(), "a command is labelled with `"+e+"`, not with its entry's index")
 				}
 			}
-			for _, st := range storesToField(fn, al, "Command") {
-				if !strings.Contains(Expr(st.Val), "entryToCommand(") {
-					ob.Violate("command-source", st.Pos(), "the shipped command is `"+Expr(st.Val)+"`")
+			for _, st := range storesToField(host, al, "Command") {
+				if !strings.Contains(hx(st.Val), "entryToCommand(") {
+					ob.Violate("command-source", st.Pos(), "the shipped command is `"+hx(st.Val)+"`")
 				}
 			}
 		}
@@ -526,14 +585,9 @@ func c06Cache(w *World, r *Report, id, slug string) {
 				}
 			}
 		})
-		for _, ci := range w.CallersOf(put) {
-			if ci.Parent() != cq {
-				ob.Violate("put-caller@"+FnName(ci.Parent()), ci.Pos(), "put is called from "+FnName(ci.Parent()))
-				continue
-			}
-			ob.Site(ci.Pos(), "put("+Expr(ci.Common().Args[1])+") in the cached reader")
-			wk := &Walk{Target: func(x ssa.Instruction) bool { return x == ssa.Instruction(ci) }, EdgeOK: func(b *ssa.BasicBlock, k int) bool {
-				for _, l := range ctx.EdgeLits(b, k) {
+		contiguous := func(c *ExprCtx) func(b *ssa.BasicBlock, k int) bool {
+			return func(b *ssa.BasicBlock, k int) bool {
+				for _, l := range c.EdgeLits(b, k) {
 					if l.Kind != "int" || l.IsNE {
 						continue
 					}
@@ -547,8 +601,36 @@ func c06Cache(w *World, r *Report, id, slug string) {
 					}
 				}
 				return true
-			}}
-			if p := wk.Find(entry(cq)); p != nil {
+			}
+		}
+		for _, ci := range w.CallersOf(put) {
+			host := ci.Parent()
+			hctx := ctx
+			var viaCall ssa.CallInstruction
+			if host != cq {
+				// a helper of the cached reader: a function whose only call site is in the cached reader
+				// (a branch of it moved into a method); its parameters read as the reader's arguments
+				callers := w.CallersOf(host)
+				if len(callers) != 1 || callers[0].Parent() != cq || len(callers[0].Common().Args) != len(host.Params) {
+					ob.Violate("put-caller@"+FnName(host), ci.Pos(), "put is called from "+FnName(host))
+					continue
+				}
+				viaCall = callers[0]
+				hctx = &ExprCtx{Alias: map[ssa.Value]string{}}
+				for i, p := range host.Params {
+					hctx.Alias[p] = ctx.Expr(viaCall.Common().Args[i])
+				}
+			}
+			ob.Site(ci.Pos(), "put("+Expr(ci.Common().Args[1])+") in the cached reader")
+			wk := &Walk{Target: func(x ssa.Instruction) bool { return x == ssa.Instruction(ci) }, EdgeOK: contiguous(hctx)}
+			p := wk.Find(entry(host))
+			if p != nil && viaCall != nil {
+				// unguarded inside the helper: the reader may have established contiguity before calling it
+				if (&Walk{Target: func(x ssa.Instruction) bool { return x == ssa.Instruction(viaCall) }, EdgeOK: contiguous(ctx)}).Find(entry(cq)) == nil {
+					p = nil
+				}
+			}
+			if p != nil {
 				ob.Violate("put-unguarded", ci.Pos(), "entries can be put into the cache without contiguity with its content having been established (cache empty, served run non-empty, or first index - 1 == largest cached)", w.PathString(p)...)
 			}
 		}
